@@ -189,7 +189,7 @@ def orthonormal(case, ctx):
 @st.composite
 def coord_case(draw, tier):
     hi = 14 if tier == "quick" else 32
-    shape = draw(gen.shape2(3, hi))
+    shape = draw(gen.shape2(3, hi, big=0.03, big_pool=[64, 65, 128, 129, 255, 256]))
     m = draw(gen.support_mask(shape, min_samples=3))
     return {"mask": m.astype(int), "j": draw(st.integers(1, 36)), "scale": draw(st.sampled_from([2, 0.5, 7.25, -3]))}
 
